@@ -5,12 +5,19 @@ EXTENDS PbDetCases, Sequences
 Trace == ndJsonDeserialize(IOEnv.TRACE)
 VARIABLES l, bad, memo
 Init == l = 1 /\ bad = <<>> /\ memo = [i \in {} |-> <<>>]
+\* What is memoised.  For content built from a literal: the deterministic bytes themselves.  For content DECODED from arbitrary
+\* bytes ("decdet"): the canonical encoding of what those bytes decode to - implementations may differ in how they keep a
+\* non-minimally encoded tag of an unknown field (the table-driven path re-encodes it, the reflection path keeps it) and in the
+\* payload bits of a NaN (all NaNs are one value); Decode normalises both, so equal content has equal memo values.
+MemoVal(e) == IF e.op = "decdet" /\ "panic" \notin DOMAIN e.out
+              THEN (LET d == Decode(e.type, e.out.det, EmptyMsg, 10000, FALSE) IN IF d.ok THEN Encode(e.type, d.m) ELSE e.out.det)
+              ELSE e.out.det
 Next == /\ l <= Len(Trace)
         /\ LET e == Trace[l]
                known == e.id \in DOMAIN memo
-               ok == DetAgree(e) /\ (known => memo[e.id] = e.out.det)
+               ok == DetAgree(e) /\ (known => memo[e.id] = MemoVal(e))
            IN /\ bad' = IF ok THEN bad ELSE Append(bad, l)
-              /\ memo' = IF known \/ "panic" \in DOMAIN e.out THEN memo ELSE (e.id :> e.out.det) @@ memo
+              /\ memo' = IF known \/ "panic" \in DOMAIN e.out THEN memo ELSE (e.id :> MemoVal(e)) @@ memo
         /\ l' = l + 1
         /\ TLCSet(1, <<l + 1, bad'>>)
 Accepted == LET r == TLCGet(1) IN
